@@ -36,6 +36,7 @@ type Harness struct {
 	Bounds   string
 	Kind     string // "" or "validate"
 	Stubs    map[string]string
+	Restub   map[string]bool // stubs that stay in force below their own frame (only a direct call from the stub reaches the real function)
 	Solver   string
 	Tags     string // extra build tags for load and replay
 }
@@ -44,6 +45,7 @@ type Loaded struct {
 	prog       *ssa.Program
 	pkg        *ssa.Package
 	stubs      map[string]*ssa.Function
+	restub     map[*ssa.Function]bool
 	stubNames  map[string]string
 	finfo      map[*ssa.Function]*funcInfo
 	errStringT types.Type
@@ -149,6 +151,17 @@ func parseHarnessFile(src, pkgDir, path string) []*Harness {
 					kv := strings.SplitN(val, "=", 2)
 					if len(kv) == 2 {
 						h.Stubs[strings.TrimSpace(kv[0])] = strings.TrimSpace(kv[1])
+					}
+				case "restub":
+					// like stub, but the replacement stays in force for calls made
+					// further down its own call tree (scripted re-entrancy)
+					kv := strings.SplitN(val, "=", 2)
+					if len(kv) == 2 {
+						h.Stubs[strings.TrimSpace(kv[0])] = strings.TrimSpace(kv[1])
+						if h.Restub == nil {
+							h.Restub = map[string]bool{}
+						}
+						h.Restub[strings.TrimSpace(kv[0])] = true
 					}
 				case "nostub":
 					delete(h.Stubs, val)
@@ -266,6 +279,7 @@ func loadPackage(pkgDir string) (*Loaded, error) {
 // bindStubs resolves a harness's stub directives against the loaded program.
 func (ld *Loaded) bindStubs(h *Harness) error {
 	ld.stubs = map[string]*ssa.Function{}
+	ld.restub = map[*ssa.Function]bool{}
 	if len(h.Stubs) == 0 {
 		return nil
 	}
@@ -284,6 +298,9 @@ func (ld *Loaded) bindStubs(h *Harness) error {
 			return fmt.Errorf("stub target %q does not exist in the loaded program (refactored away?)", target)
 		}
 		ld.stubs[target] = fn
+		if h.Restub[target] {
+			ld.restub[fn] = true
+		}
 	}
 	return nil
 }
